@@ -14,8 +14,8 @@ Judge(o) ==
     \A i \in 1..Len(o.evals) :
         LET e == [node |-> o.evals[i][1], val |-> o.evals[i][2], inferred |-> o.evals[i][3]]
         IN IF Sound(e) THEN TRUE
-           ELSE IF e.inferred = Never THEN Say(o.tid, "viol:NeverIsNeverReached:" \o ToString(e.node))
-           ELSE Say(o.tid, "viol:Sound:" \o ToString(e.node))
+           ELSE IF e.inferred = Never THEN Say(o.tid, "viol:NeverIsNeverReached:" \o ToString(i))
+           ELSE Say(o.tid, "viol:Sound:" \o ToString(i))
 
 TInit == l = 1 /\ MInit
 TNext == l <= Len(Obs) /\ Judge(Obs[l]) /\ l' = l + 1 /\ UNCHANGED mvars
